@@ -1,11 +1,11 @@
 #!/bin/bash
 # ./check.sh <ID> quick|thorough      run one property check
-# ./check.sh --replay <file>          show a replay file
+# ./check.sh --replay <file>          replay a reported violation on the current tree
 set -u
 cd "$(dirname "$0")"
-if [ "${1:-}" = "--replay" ]; then
-  exec cat "$2"
-fi
 ./setup.sh >/dev/null 2>&1 || { echo "CHECKER-ERROR setup failed"; exit 3; }
 export PYTHONDONTWRITEBYTECODE=1
+if [ "${1:-}" = "--replay" ]; then
+  exec .venv/bin/python -m mmverif.replay "$2"
+fi
 exec .venv/bin/python -m mmverif.check "$1" --tier "${2:-quick}"
